@@ -136,14 +136,17 @@ def run_spec(cfgs, name, shards=8, timeout=1500):
         d = tlc.fresh_dir(f"{name}_shard{idx}")
         tlc.stage_specs(d, ["Sampler.tla"])
         (d / "SamplerConsts.tla").write_text(consts_module([cfgs[i] for i in part]))
-        return tlc.run_tlc(d, "Sampler", CFG, workers=2, timeout=timeout, cpus=2, heap="3g", dump_trace=True)
+        return tlc.run_tlc(d, "Sampler", CFG, workers=2, timeout=timeout, cpus=2, heap="3g", dump_trace=True, coverage=True)
 
     with ThreadPoolExecutor(max_workers=shards) as ex:
         results = list(ex.map(one, enumerate(parts)))
     terminals, gen, dist = {}, 0, 0
+    cover = {}
     for part, res in zip(parts, results):
         gen += res.generated
         dist += res.distinct
+        for a, (dst, gn) in res.coverage.items():
+            cover[a] = cover.get(a, 0) + gn
         if not res.ok:
             raise MachineryError(f"Sampler.tla violates its own property {res.violated}:\n{res.stdout[-3000:]}")
         for r in res.printed:
@@ -151,7 +154,14 @@ def run_spec(cfgs, name, shards=8, timeout=1500):
                 g = part[r["ci"] - 1]
                 key = json.dumps({k: r[k] for k in ("finals", "tr", "sr", "param", "stagesRun")}, sort_keys=True)
                 terminals.setdefault(g, {})[key] = r
-    return terminals, {"generated": gen, "distinct": dist}
+    # vacuity guard: every action of the specification must have been taken in this family
+    never = sorted(a for a, n_ in cover.items() if n_ == 0 and a not in ("ReturnEmpty",))
+    seq_only = all(c["nproc"] == 0 for c in cfgs)
+    par_only = all(c["nproc"] > 0 for c in cfgs)
+    never = [a for a in never if not (seq_only and a.startswith(("Worker", "Parent"))) and not (par_only and a.startswith("Seq"))]
+    if never and len(cfgs) > 20:
+        raise MachineryError(f"vacuity: actions of Sampler.tla never taken in this configuration family: {never}")
+    return terminals, {"generated": gen, "distinct": dist, "action_coverage": cover}
 
 
 # --------------------------------------------------------------------------------------
